@@ -736,9 +736,21 @@ def stream_charref_direct(ctx, drv):
                 if capped(ctx, "charref-direct", reply):
                     continue
                 doc = reproduce_charref(name, enc)
-                ctx.violation(f"handle_charref({'&#' + (name if len(name) < 30 else name[:12] + '…(%d chars)' % len(name))}) under document encoding {enc!r}: {reply}",
-                              case=case | {"markup_reproducing": doc}, expected="a non-empty text handed to handle_data", observed=reply,
-                              stream="charref-direct")
+                shown = "&#" + (name if len(name) < 30 else name[:12] + "…(%d chars)" % len(name))
+                real = None
+                if doc is not None:
+                    m = dec_markup(doc if "markup" not in doc else doc["markup"])
+                    kw = {"from_encoding": enc} if enc else {}
+                    real = run_constructor(m, kw, post=False)["outcome"]
+                if real is not None and real.startswith("other"):
+                    ctx.violation(f"BeautifulSoup({describe(m)}, 'html.parser'{', from_encoding=%r' % enc if enc else ''}) raised {real[6:]} "
+                                  f"(handle_charref({shown}) under document encoding {enc!r})",
+                                  case={"op": "construct", "markup": enc_markup(m), "kwargs": enc_kwargs(kw), "shown": describe(m)},
+                                  expected="a tree or ParserRejectedMarkup", observed=real[6:], stream="charref-direct")
+                else:
+                    ctx.violation(f"handle_charref({shown}) under document encoding {enc!r}: {reply} (through the constructor: {real}); the model of the "
+                                  "repaired code hands a text to handle_data", case=case | {"markup_reproducing": doc},
+                                  expected="a non-empty text handed to handle_data", observed=reply, stream="charref-direct", no_failing_input=True)
                 continue
             lines.append(f"c06 charref {orig_table(enc)} {cps_tok([ord(c) for c in name])}")
             impl.append(reply)
@@ -831,7 +843,7 @@ POISONS = ["<html><head><title>poison</title></head><body class='p'><pre> p\n<b>
            "<!DOCTYPE poison><a><b><c><d><e><f>deep</f>",
            "<table><tr><td>1<td>2<textarea>\n x", "plain text poison &amp; more",
            "<p id=1><p id=2><br><br/><svg:x xmlns:svg='u'>"]
-FINALS = ["<p>final</p>", "", "<html><body><pre>\n a</pre><b>x<i>y</b>z</i><!--k--></body></html>", "text", "<a href='1'><br/>&#150;<script>1</script>"]
+FINALS = ["<p>final</p>", "", "<p>  </p>\n<b> \n </b> t", "<html><body><pre>\n a</pre><b>x<i>y</b>z</i><!--k--></body></html>", "text", "<a href='1'><br/>&#150;<script>1</script>"]
 
 
 def _fault_builder_class():
@@ -1040,8 +1052,18 @@ def capped(ctx, stream, cls, limit=30):
     return False
 
 
-def classify_known(case_markup, kwargs, rec):
-    """no known findings for C06: every defect found so far is repaired (fixes/C06-*.diff)"""
+ATTR_LONGREF = re.compile(r"<[^<>]*&#[0-9]{4301,}")
+
+
+def classify_known(markup, kwargs, rec):
+    """Every C06 defect found so far is repaired (fixes/C06-*.diff), so nothing is listed as known. Should the
+    tokenizer's own ValueError (html.unescape of an attribute value holding a decimal reference beyond
+    sys.int_max_str_digits) ever be kept as a known finding instead of being wrapped by feed, this recognises exactly that
+    class from the case: the plain tokenizer run alone raised ValueError and the text has such a reference inside a tag."""
+    if rec["outcome"] == "other:ValueError" and rec["tok"] == "value":
+        text = markup if isinstance(markup, str) else markup.decode("latin-1")
+        if ATTR_LONGREF.search(text):
+            return "C06-attr-charref-digit-limit"
     return None
 
 
@@ -1089,11 +1111,11 @@ def aggregate(ctx, drv, cases, results):
             ctx.violation(f"BeautifulSoup({describe(markup)}, 'html.parser'{''.join(', %s=%r' % kv for kv in kwargs.items())[:120]}) raised "
                           f"{rec['outcome'][6:]}: {rec['exc']}", case=case, expected="a tree or ParserRejectedMarkup", observed=rec["outcome"][6:],
                           stream=stream, kf=classify_known(markup, kwargs, rec))
-        if rec["link"]:
+        if rec["link"] and not capped(ctx, stream, "link"):
             ctx.violation("the constructed tree is not well linked: " + rec["link"], case=case, stream=stream)
-        if rec["post"]:
+        if rec["post"] and not capped(ctx, stream, "post:" + rec["post"][:30]):
             ctx.violation("the constructed tree cannot be rendered/searched/copied: " + rec["post"], case=case, stream=stream)
-        if rec["half_built"]:
+        if rec["half_built"] and not capped(ctx, "half-built", "not-cleared"):
             ctx.violation(rec["half_built"], case=case, stream=stream)
         if rec["tok"].startswith("other"):
             ctx.violation("measured hypothesis broken: CPython's tokenizer alone raised " + rec["tok"][6:], case=case, stream=stream,
@@ -1115,6 +1137,8 @@ def aggregate(ctx, drv, cases, results):
             already = rec["outcome"].startswith("other")
             if what == "outcome" and already:
                 continue  # reported above with the real exception
+            if capped(ctx, "construct-correspondence", what):
+                continue
             ctx.violation(f"model and implementation disagree on the {what}", case=case | {"line": l if len(l) < 400 else l[:400] + '…'}, observed=a, model=b,
                           stream="construct-correspondence", no_failing_input=True)
     ctx.count("construct:requests", len(lines))
